@@ -154,7 +154,7 @@ func (p *parent) run(genFile, outFile string, workers, reps1, reps2 int, only st
 		}
 		bySrv[j.Abs.Srv] = append(bySrv[j.Abs.Srv], j)
 	}
-	const batchSize = 1500
+	const batchSize = 600
 	var batches [][]job
 	for _, s := range srvs {
 		js := bySrv[s]
